@@ -238,6 +238,17 @@ EXTRA = {
     "C20": ("; both public walk routes evaluated end to end against a model of walkdir, unmodelled calls answering unknowns",
             " Every walk consults walkdir on its root whatever an unmodelled call (a file-system probe) answers, so a fault at the root is reported by walkdir and cannot be pre-empted (C20.source)."),
 }
+EXTRA["C06"] = ("; the rule checker on ~6 400 parsed texts vs. the documented rules by expansion",
+               " On ~6 400 texts taken through the parser (two groups around a middle, groups in groups) the rule functions agree with the documented rules in both directions, "
+               "up to two known families recorded in KNOWN_FINDINGS.txt (C06.text).")
+EXTRA["C09"] = ("; nested alternations taken through the parser",
+               " On ~2 800 alternations of alternations the verdict `always` agrees with the program language (C09.text).")
+EXTRA["C03"] = ("; nested alternations taken through the parser; the cancellation flag's provenance",
+               " C09.text on alternations of alternations; discarding a non-directory entry cannot leave its parent (C13.isdir).")
+EXTRA["C12"] = (EXTRA["C12"][0] + "; has_root on ~3 700 buildable parsed texts",
+               EXTRA["C12"][1] + " No buildable text of the C06.text catalogue reports `sometimes`, up to one known family (C12.text).")
+EXTRA["C01"] = ("; the whole route text -> parser -> rule checker -> encoder evaluated on ~4 200 texts with flags / classes / escapes and the program compared with the reference language",
+               " End to end from the text (C01.text): on ~4 200 texts with flags anywhere, classes, escapes and multi-byte characters the program has exactly the language the README gives to the tokens.")
 for _pid, (_t, _x) in EXTRA.items():
     CLAIMS[_pid] = dict(CLAIMS[_pid], technique=CLAIMS[_pid]["technique"] + _t, text=CLAIMS[_pid]["text"] + _x)
 
